@@ -767,3 +767,14 @@ def _register_shared():
 
 
 # _register_shared() is called by the driver after this module is fully imported (no import cycles)
+
+
+# under MPI the writer rank sees the patch ids in the order in which the pieces of the processing ranks arrive: the id list it stores must
+# not depend on that order (sorted) - the C08 unit on CatalogWriter.finalize, run here as well
+def _register_shared_round9():
+    from . import C08 as _C08
+    unit(P, "CatalogWriter.finalize", fuc=["yaw.catalog.catalog:CatalogWriter.finalize"],
+         cases=[dict(K=k, empty=False, fail=False) for k in (2, 3)], kind="bounded")(_C08.u_finalize)
+
+
+# _register_shared_round9() is called by the driver after this module is fully imported (no import cycles)
